@@ -109,16 +109,52 @@ def run_tlc(module, cfg=None, env=None, workers=1, timeout=600, extra=(), heap='
 
 
 def printed_tuples(out):
-    """All <<...>> tuples printed by PrintT, parsed into python lists of str/int (bracket matching)."""
+    """All <<...>> tuples printed by PrintT, parsed into python lists (TLC wraps long values over several lines:
+    a tuple starts at a line beginning with << and ends where the brackets balance)."""
     res = []
-    for line in out.splitlines():
-        line = line.strip()
-        if line.startswith('<<') and line.endswith('>>'):
-            try:
-                res.append(parse_tla_value(line))
-            except Exception:
-                pass
+    lines = out.splitlines()
+    i = 0
+    while i < len(lines):
+        line = lines[i].strip()
+        if line.startswith('<<'):
+            buf = line
+            j = i
+            while not _balanced(buf) and j + 1 < len(lines) and j - i < 400:
+                j += 1
+                buf += ' ' + lines[j].strip()
+            if _balanced(buf):
+                try:
+                    res.append(parse_tla_value(buf))
+                    i = j + 1
+                    continue
+                except Exception:
+                    pass
+        i += 1
     return res
+
+
+def _balanced(text):
+    depth = 0
+    instr = False
+    k = 0
+    n = len(text)
+    while k < n:
+        ch = text[k]
+        if instr:
+            if ch == '\\':
+                k += 1
+            elif ch == '"':
+                instr = False
+        elif ch == '"':
+            instr = True
+        elif text.startswith('<<', k):
+            depth += 1
+            k += 1
+        elif text.startswith('>>', k):
+            depth -= 1
+            k += 1
+        k += 1
+    return depth == 0 and not instr
 
 
 def parse_tla_value(text):
@@ -270,6 +306,11 @@ def _validate_shard(module, path, timeout, heap, extra_env, stateful=False):
             raise MachineryError('TLC timed out on %s (%s)' % (module, cur))
         if done is not None and r['error'] is None:
             consumed += done[0]
+            nrej_run = sum(1 for t in printed_tuples(r['out']) if t and t[0] == 'REJECT')
+            nskip_run = sum(1 for t in printed_tuples(r['out']) if t and t[0] == 'SKIP')
+            nknown_run = sum(1 for t in printed_tuples(r['out']) if t and t[0] == 'KNOWN')
+            if (nrej_run, nskip_run, nknown_run) != (done[1], done[2], done[3]):
+                raise MachineryError('verdict lines lost while parsing TLC output of %s: parsed %s, TLC counted %s' % (module, (nrej_run, nskip_run, nknown_run), done[1:]))
             break
         # evaluation error: find the case it happened on
         m = None
